@@ -88,11 +88,14 @@ def bounded(ctx):
         out = []
         for (pos, strand) in den:
             # a strandless part has no opposite strand: it stays strandless (written 0 here)
+            if pos and isinstance(pos[0], tuple):
+                out.append((tuple(pos), strand if strand in (1, -1) else 0))      # a part pointing into another record: carried as it is
+                continue
             out.append((tuple(sorted((n - 1 - p) % n for p in pos)), -strand if strand in (1, -1) else 0))
-        return sorted(out)
+        return sorted(out, key=repr)
 
     def norm_den(den):
-        return sorted((tuple(sorted(pos)), st if st in (1, -1) else 0) for (pos, st) in den)
+        return sorted([((tuple(pos) if pos and isinstance(pos[0], tuple) else tuple(sorted(pos))), st if st in (1, -1) else 0) for (pos, st) in den], key=repr)
 
     for n in range(1, maxn + 1):
         s = letters[:n]
@@ -126,8 +129,8 @@ def bounded(ctx):
                 if len(orc["features"]) != len(ob["features"]):
                     pb.append("features lost: %d of %d" % (len(orc["features"]), len(ob["features"])))
                 else:
-                    want = sorted((f["type"], tuple(flipped_den(f["den"], n))) for f in ob["features"] if f["den"] is not None)
-                    got = sorted((f["type"], tuple(norm_den(f["den"]))) for f in orc["features"] if f["den"] is not None)
+                    want = sorted([(f["type"], tuple(flipped_den(f["den"], n))) for f in ob["features"] if f["den"] is not None], key=repr)
+                    got = sorted([(f["type"], tuple(norm_den(f["den"]))) for f in orc["features"] if f["den"] is not None], key=repr)
                     if want != got:
                         pb.append("features do not denote the mirrored nucleotides on the other strand: %r vs %r" % (got[:2], want[:2]))
                     # order-sensitive: what each feature spells (its parts in listed order, each on its own strand) is the
@@ -139,16 +142,16 @@ def bounded(ctx):
                         pb.append("features no longer spell the same stretch after the reverse complement: %r vs %r" % (spell1[:2], spell0[:2]))
                     if spell2 != spell0:
                         pb.append("twice: features spell another stretch: %r vs %r" % (spell2[:2], spell0[:2]))
-                    w2 = sorted((f["type"], tuple(norm_den(f["den"]))) for f in ob["features"] if f["den"] is not None)
-                    g2 = sorted((f["type"], tuple(norm_den(f["den"]))) for f in orr["features"] if f["den"] is not None)
+                    w2 = sorted([(f["type"], tuple(norm_den(f["den"]))) for f in ob["features"] if f["den"] is not None], key=repr)
+                    g2 = sorted([(f["type"], tuple(norm_den(f["den"]))) for f in orr["features"] if f["den"] is not None], key=repr)
                     if w2 != g2:
                         pb.append("twice: features denote other nucleotides")
                 if str(a.seq) != str(b.seq):
                     pb.append("rc(r >> 1) = %r but rc(r) << 1 = %r" % (str(a.seq), str(b.seq)))
                 else:
                     oa, obb = bc.observe(a), bc.observe(b)
-                    ga = sorted((f["type"], tuple(norm_den(f["den"]))) for f in oa["features"] if f["den"] is not None)
-                    gb = sorted((f["type"], tuple(norm_den(f["den"]))) for f in obb["features"] if f["den"] is not None)
+                    ga = sorted([(f["type"], tuple(norm_den(f["den"]))) for f in oa["features"] if f["den"] is not None], key=repr)
+                    gb = sorted([(f["type"], tuple(norm_den(f["den"]))) for f in obb["features"] if f["den"] is not None], key=repr)
                     if ga != gb:
                         pb.append("rc(r >> 1) and rc(r) << 1 attach features to different nucleotides")
                 if pb:
